@@ -14,6 +14,7 @@ import (
 	"errors"
 	"fmt"
 	"net"
+	"os"
 	"regexp"
 	"strings"
 	"sync"
@@ -36,7 +37,7 @@ import (
 )
 
 const bigRows = 6000
-const pcRows = 1200 // rows of every per-client payload table
+const pcRows = 1040 // rows of every per-client payload table
 const valRows = 640 // rows of the value-coverage table
 const maxClients = 16
 
@@ -103,6 +104,7 @@ type caseT struct {
 	N      int           `json:"n"`      // intended result size
 	Phase  string        `json:"phase"`  // "solo" | "concurrent"
 	Client int           `json:"client"`
+	Slow   int           `json:"client_read_delay_us,omitempty"` // the client waits this long before reading the rows
 	// observations
 	GotCols  []string `json:"got_cols,omitempty"`
 	GotRows  int      `json:"got_rows"`
@@ -199,6 +201,9 @@ func runClient(conn *sql.Conn, cs *caseT) obs {
 		return o
 	}
 	defer rows.Close()
+	if cs.Slow > 0 {
+		time.Sleep(time.Duration(cs.Slow) * time.Microsecond)
+	}
 	o.cols, _ = rows.Columns()
 	vals := make([]interface{}, len(o.cols))
 	ptrs := make([]interface{}, len(o.cols))
@@ -328,13 +333,21 @@ func soakFor(r *lib.RNG, k int) caseT {
 	if r.Chance(1, 5) {
 		n += 128 * r.Range(1, 2)
 	}
+	cols := "id, tag, n, u, d"
+	if r.Chance(1, 2) {
+		// wide rows: the trailing batch is larger than the connection's write buffer, and the client is slow to
+		// read, so the server is still writing it while other connections run
+		cols = fmt.Sprintf("id, REPEAT(tag, %d) AS wide, u, tag", r.Range(20, 70))
+		n = r.Range(60, 127)
+		cs.Slow = r.Range(200, 2500)
+	}
 	cs.N = n
 	lo := r.Intn(pcRows - n + 1)
 	tbl := fmt.Sprintf("pc_%d", k)
-	cs.Inproc = fmt.Sprintf("SELECT id, tag, n, u, d FROM %s WHERE id >= %d AND id < %d ORDER BY id", tbl, lo, lo+n)
+	cs.Inproc = fmt.Sprintf("SELECT %s FROM %s WHERE id >= %d AND id < %d ORDER BY id", cols, tbl, lo, lo+n)
 	cs.SQL = cs.Inproc
 	if cs.Mode == "prepared" {
-		cs.SQL = fmt.Sprintf("SELECT id, tag, n, u, d FROM %s WHERE id >= ? AND id < ? ORDER BY id", tbl)
+		cs.SQL = fmt.Sprintf("SELECT %s FROM %s WHERE id >= ? AND id < ? ORDER BY id", cols, tbl)
 		cs.Args = []interface{}{lo, lo + n}
 	}
 	return cs
@@ -476,12 +489,13 @@ func main() {
 		c.SetRule("solo phase (one client, text and prepared mode): key ranges of a 6000-row table with result sizes {0,1,127,128,129,255,256,257,511,512,513,5000}; " +
 			"full scans and ranges of a 640-row value table holding the boundary values of TINYINT..BIGINT signed/unsigned, DECIMAL(20,5)/(65,0), VARCHAR/TEXT with " +
 			"multi-byte and NUL bytes, VARBINARY, DATE, DATETIME, DATETIME(6), YEAR and NULLs; DML on twin tables; failing statements; DATE below year 1000 (known finding). " +
-			"Concurrent phase: 8-16 clients, each reading only its own 1200-row payload table (client tag in every string, client-specific BIGINT/BIGINT UNSIGNED >= 2^63/DECIMAL): " +
+			"Concurrent phase: 8-16 clients, each reading only its own 1040-row payload table (client tag in every string, client-specific BIGINT/BIGINT UNSIGNED >= 2^63/DECIMAL): " +
 			"generated ranges, LIMIT, NULL rows, self-join, UNION ALL, aggregates, errors with sizes around every multiple of 128, then a soak of several hundred short " +
 			"statements per client whose last batch is partial (predicate only). Every received VALUE is compared with the in-process value. " +
 			"Non-trivial = a successful statement; distinct = distinct (mode, statement, arguments).")
 		logrus.SetLevel(logrus.PanicLevel)
 
+		t0 := time.Now()
 		e := eng.New("db")
 		s := e.Session()
 		s.MustExec("CREATE TABLE big (id BIGINT PRIMARY KEY, s VARCHAR(64), n INT, t TEXT)")
@@ -546,7 +560,11 @@ func main() {
 		}
 		s.MustExec("CREATE TABLE olddate (id INT PRIMARY KEY, d DATE)", "INSERT INTO olddate VALUES (1, '0001-01-01'), (2, '0999-12-31')")
 		// per-client payload tables
-		for k := 0; k < maxClients; k++ {
+		K := c.R.Range(8, maxClients)
+		if c.ReplayFile != "" {
+			K = maxClients
+		}
+		for k := 0; k < K; k++ {
 			s.MustExec(fmt.Sprintf("CREATE TABLE pc_%d (id INT PRIMARY KEY, tag VARCHAR(64), n BIGINT, u BIGINT UNSIGNED, d DECIMAL(20,5))", k))
 			for lo := 0; lo < pcRows; lo += 500 {
 				var sb strings.Builder
@@ -565,6 +583,9 @@ func main() {
 			}
 		}
 
+		if os.Getenv("C35_TIMING") != "" {
+			fmt.Fprintln(os.Stderr, "setup done", time.Since(t0))
+		}
 		ln, err := net.Listen("tcp", "127.0.0.1:0")
 		if err != nil {
 			panic(err)
@@ -704,10 +725,12 @@ func main() {
 			}
 			runSlots(solo)
 			all = append(all, solo...)
+			if os.Getenv("C35_TIMING") != "" {
+				fmt.Fprintln(os.Stderr, "solo done", time.Since(t0))
+			}
 
 			// ----- concurrent phase -----
-			K := c.R.Range(8, maxClients)
-			nsoak := 300
+			nsoak := 200
 			if c.Tier == "thorough" {
 				nsoak = 4000
 			}
@@ -745,6 +768,9 @@ func main() {
 			wg.Wait()
 		}
 
+		if os.Getenv("C35_TIMING") != "" {
+			fmt.Fprintln(os.Stderr, "clients done", time.Since(t0))
+		}
 		// ----- evaluation, in case order -----
 		// compare returns "" or (signature, description) of the first difference between client and engine
 		compare := func(cs *caseT, o obs, exp eng.Result) (string, string) {
@@ -754,6 +780,21 @@ func main() {
 					want = int(gsql.CastSQLError(exp.Err).Number())
 				}
 				if (exp.Err != nil) != (o.errno != 0) || (want != o.errno) {
+					if cs.Phase == "concurrent" && exp.Err == nil && foreign(o.errText, cs.Client) {
+						return "cross-talk/foreign-client-bytes", fmt.Sprintf("the client could not decode a row: %q - it carries another client's payload", o.errText)
+					}
+					if cs.Phase == "concurrent" && exp.Err == nil && o.errno < 0 {
+						again := obs{}
+						func() {
+							conn, id := newConn()
+							defer conn.Close()
+							again = runClient(conn, cs)
+							h.take(id)
+						}()
+						if again.errno == 0 {
+							return "cross-talk/concurrent-only/connection-broken", fmt.Sprintf("the connection broke while reading the result (%q); the same statement alone succeeds with %d rows", o.errText, len(again.cells))
+						}
+					}
 					if cs.Kind == "olddate" {
 						return "date-year-below-1000-unpadded", fmt.Sprintf("DATE values before year 1000: client error %d %q (the binary protocol cannot carry the unpadded text), in process %v", o.errno, o.errText, exp.Err)
 					}
